@@ -184,6 +184,15 @@ func arrayIndex(tok string, n int, allowEnd bool) (int, error) {
 	return i, nil
 }
 
+// Lookup evaluates a JSON pointer.
+func Lookup(doc any, pointer string) (any, error) {
+	toks, err := pointerTokens(pointer)
+	if err != nil {
+		return nil, err
+	}
+	return getAt(doc, toks)
+}
+
 func getAt(doc any, toks []string) (any, error) {
 	cur := doc
 	for _, t := range toks {
@@ -430,7 +439,8 @@ func Quirks(doc any, ops []any) []string {
 	}
 	cur := Clone(doc)
 	var copied [][]string // pointers that may share structure after a copy
-	related := func(a, b []string) bool { return isPrefix(a, b) || isPrefix(b, a) }
+	// array indices shift when a sibling is removed or inserted: an index token stands for any element of its array
+	related := func(a, b []string) bool { return isPrefixWild(a, b) || isPrefixWild(b, a) }
 	for _, o := range ops {
 		op, _ := o.(map[string]any)
 		kind, _ := op["op"].(string)
@@ -479,7 +489,14 @@ func Quirks(doc any, ops []any) []string {
 				copied = append(copied, ft, toks)
 			}
 			if len(toks) > 0 {
-				if parent, perr := getAt(cur, toks[:len(toks)-1]); perr == nil {
+				// the target location of a move is evaluated after its source was removed
+				at := cur
+				if kind == "move" {
+					if removed, rerr := ApplyRFC6902(cur, []any{map[string]any{"op": "remove", "path": from}}); rerr == nil {
+						at = removed
+					}
+				}
+				if parent, perr := getAt(at, toks[:len(toks)-1]); perr == nil {
 					if _, isArr := parent.([]any); isArr {
 						add(kind + "-to-array-element")
 					}
@@ -493,6 +510,34 @@ func Quirks(doc any, ops []any) []string {
 		cur = next
 	}
 	return out
+}
+
+// isPrefixWild is isPrefix with array-index tokens (decimal numbers and "-") matching each other.
+func isPrefixWild(a, b []string) bool {
+	if len(a) > len(b) {
+		return false
+	}
+	for i := range a {
+		if a[i] != b[i] && !(isIndexToken(a[i]) && isIndexToken(b[i])) {
+			return false
+		}
+	}
+	return true
+}
+
+func isIndexToken(t string) bool {
+	if t == "-" {
+		return true
+	}
+	if t == "" {
+		return false
+	}
+	for _, c := range t {
+		if c < '0' || c > '9' {
+			return false
+		}
+	}
+	return true
 }
 
 func hasNull(v any) bool {
